@@ -41,7 +41,7 @@ def payload(pairs, rng=None):
 class C13(Prop):
     id = "C13"
     thorough_rounds = 3   # thorough tier: this many independently seeded rounds of the random generators (duplicates dropped)
-    modules = ["H3.Props.C13", "H3.Lemmas.GenAgreeSend"]
+    modules = ["H3.Props.C13", "H3.Lemmas.GenAgreeSend", "H3.Lemmas.GenAgreeCtl"]
     engines = ["set"]
     design_ref = "DESIGN.md section 7, C13"
     level_text = ("Lean theorems over models of frame::Settings::{insert,get,len,encode,decode}, SettingId::{is_supported,"
@@ -52,18 +52,26 @@ class C13(Prop):
                   "WRITE_BUF_ENCODE_SIZE) whose RFC parse is exactly the configured pairs (+ grease iff on), no id twice, none "
                   "reserved, grease never collides; a number >= 2^62 makes build return an error with nothing written (after "
                   "the D-13 repair); for every received payload the decoder agrees with the RFC 9114 7.2.4 oracle (truncated "
-                  "-> connection error, reserved / repeated supported id -> H3_SETTINGS_ERROR, else applied exactly, unknown "
-                  "ids ignored, never Exceeded); defaults until the first set, first value for ever; decode(encode s) = s; "
+                  "-> connection error, reserved / repeated supported id -> H3_SETTINGS_ERROR, H3_DATAGRAM / ENABLE_CONNECT_PROTOCOL "
+                  "with a value other than 0 / 1 -> H3_SETTINGS_ERROR (reading R-13b, repair D-13b; the list of such ids is read "
+                  "from the source and proved equal to the RFC list), else applied exactly (those two flags: on iff 1 is carried), "
+                  "unknown ids ignored, never Exceeded), also at connection level against Spec.Settings.demand "
+                  "(C13_received_settings_agree_with_oracle); the local configuration plays no part in what is received "
+                  "(C13_received_settings_independent_of_local_config; the SETTINGS arm of poll_control is read by the translator "
+                  "as exactly set_settings((&settings).into())); defaults until the first set, first value for ever; "
+                  "decode(encode s) = s; "
                   "for every acceptance script of the transport the peer sees a prefix of that header and exactly the header "
                   "once write returns (WriteBuf model of C14, drain_spec); streams with an incomplete header accepted before "
-                  "the control stream are passed over by the scan of poll_accept_recv (any number of them)")
+                  "the control stream are passed over by the scan of poll_accept_recv (any number of them), and so are resolved "
+                  "QPACK / WebTransport / unknown-type streams (a second QPACK stream in front ends the pass with its error)")
     level_note = ("trusted: Lean kernel + 3 standard axioms; hand-written models tied to the code by the differential run (full "
                   "builder product in both roles over the real connection setup on an in-memory transport, also with the "
                   "transport taking the header in pieces; received payloads "
                   "through the real Frame::decode and through a real connection's control stream) and by the translator "
                   "(SETTINGS_LEN, WRITE_BUF_ENCODE_SIZE, supported/reserved id lists, grease formula, config defaults "
-                  "regenerated from source); reading R-13: repeated unknown ids may be ignored or rejected; boolean-valued "
-                  "settings carrying a value other than 0/1 are outside the property's wording (no demand)")
+                  "regenerated from source; Settings::decode's body in two known shapes, SettingId::is_boolean; the arms of "
+                  "poll_control / poll_accept_recv through Gen/CtlArms, Gen/UniArms); reading R-13: repeated unknown ids may be "
+                  "ignored or rejected; reading R-13b: ENABLE_WEBTRANSPORT (a draft, no error defined) above 1 is without a demand")
     rule = ("cases: set cfg = {wt,ec,dg} x mfs,wts in {0,1,63,64,16383,16384,2^30-1,2^30,2^62-1,2^62,u64::MAX} x grease on/off "
             "(server) and {ec,dg} x mfs x grease (client) + omitted-key (default) variants, grease identifier = the real "
             "SettingId::grease() under a per-case fastrand seed; set dec = every supported id x boundary values x all varint "
@@ -78,6 +86,13 @@ class C13(Prop):
             "repeated / reserved identifier or a cut behind them, at function level and through a real connection (cuts at "
             "128..132); set cfgw = the builder product under back-pressure: the transport takes the control stream header k "
             "bytes per poll (k in 1,2,3,5,7,8,11,41,64, mixed and random patterns, polls without credit in between); "
+            "third round (audit 2): set apply / apply2 / applyq under LOCAL configurations = 11 (server) / 8 (client) classes "
+            "(defaults, mfs 0 / 1 / 63 / 64 / 16383 / 16384 / 2^30 / 2^62-1, every flag, wts, grease on) x 27 classes of received "
+            "payload placed relative to the local values (mfs below / at / above the local one, wts likewise, each flag, unknown, "
+            "repeated, reserved, truncated, 0/1 setting = 2 / 3), whole and cut, + random payloads under random configurations; "
+            "set applyq with COMPLETE foreign headers in front (grease / unknown types in 1-, 2-, 8-byte form, QPACK 02 / 03, "
+            "WebTransport 4054 + session id with wt on and off, mixed with incomplete ones, every pair, second QPACK streams); "
+            "set enc judged on every line by the harness's own reader of the written bytes; "
             "non-trivial = implementation result is not bad-op/bad-case/setup-failed/pending; distinct = distinct case lines")
     trusted = ["sim.rs in-memory QUIC transport (delivers and records bytes verbatim)",
                "fastrand 2.x thread-local generator: same seed, same first draw (the grease identifier of a case line)",
@@ -246,8 +261,9 @@ class C13(Prop):
 
     # ------------------------------------------------------------------ second-round generators (seeds2/C13)
 
-    # stream headers on which `poll_type` answers Pending: nothing yet; first byte of a 2- / 4- / 8-byte type; the
-    # WebTransport type (1- and 2-byte form) or the push type without the second integer; WebTransport type + a partial id
+    # stream headers on which `poll_type` answers Pending: nothing yet; first byte of a 2- / 4- / 8-byte type (`40`, `54`,
+    # `80`, `c0`); the WebTransport type (0x54 = `4054`, it has no one-byte form) or the push type without the second
+    # integer; WebTransport type + a partial id (`405480`).  `5440` is a COMPLETE two-byte type (0x1440, unknown).
     PRE_BASIC = ["-", "40", "4054", "54", "01"]
     PRE_MORE = ["80", "c0", "800000", "c0000000000000", "5440", "405480", "0140", "4001", "bf00", "bf"]
     PATTERNS = ["1", "2", "3", "5", "7", "11", "10,7", "1,0,2", "8", "13,1", "0,1", "4,4,1", "20,20", "41", "64"]
@@ -374,6 +390,118 @@ class C13(Prop):
             P.append(q[:-1])
         return P
 
+    # ------------------------------------------------------------------ third round (audit 2): local configuration x received payload
+    M62 = 2**62 - 1
+    # stream headers that are COMPLETE and resolve to something other than a control / push stream: grease and other unknown
+    # types (1-, 2-, 8-byte form), QPACK encoder / decoder stream, WebTransport stream + session id
+    PRE_FULL = ["21", "02", "03", "405400", "40544040", "4040", "405408", "c000000000000021", "3f", "5440"]
+
+    def _local_cfgs(self, role):
+        """classes of the LOCAL configuration: (tokens, mfs, wts)"""
+        M = self.M62
+        if role == "server":
+            return [([], M, 0), (["mfs=0"], 0, 0), (["mfs=1"], 1, 0), (["mfs=63", "wt=1", "ec=1", "dg=1", "wts=1"], 63, 1),
+                    (["mfs=16384", "wt=1"], 16384, 0), (["mfs=%d" % M, "wts=%d" % M, "grease=1"], M, M), (["ec=1"], M, 0),
+                    (["dg=1", "grease=1"], M, 0), (["wt=1", "wts=0", "dg=1"], M, 0),
+                    (["mfs=1073741824", "dg=1", "wts=64", "grease=1"], 2**30, 64), (["mfs=64", "ec=1", "wt=0", "wts=7"], 64, 7)]
+        return [([], M, 0), (["mfs=0"], 0, 0), (["mfs=1"], 1, 0), (["mfs=64", "ec=1", "dg=1"], 64, 0),
+                (["mfs=16383", "grease=1"], 16383, 0), (["ec=1"], M, 0), (["dg=1", "grease=1"], M, 0),
+                (["mfs=%d" % M, "ec=1", "dg=1", "grease=1"], M, 0)]
+
+    def _recv_classes(self, m, w):
+        """classes of the RECEIVED payload relative to the local values m (max field section size) and w (sessions)"""
+        M = self.M62
+        WT, WTS = 0x2B603742, 0x2B603743
+        near = sorted({0, 1, max(m - 1, 0), m, min(m + 1, M), M})
+        C = [[]]
+        C += [payload([(6, x)]) for x in near]
+        for y in sorted({0, w, min(w + 1, M)}):
+            C.append(payload([(6, min(m + 1, M)), (8, 1), (0x33, 1), (WT, 1), (WTS, y)]))
+        C += [payload([(8, 1)]), payload([(8, 0), (0x33, 0), (WT, 0)]), payload([(0x33, 1)]), payload([(WT, 1)]),
+              payload([(WTS, 5)]), payload([(0x21, 7)]), payload([(9, 9), (6, max(m - 1, 0)), (9, 9)]),
+              payload([(0, 1)]), payload([(6, 1), (6, 2)]), [6], payload([(6, m)]) + [0x40],
+              payload([(0x33, 2)]), payload([(8, 2)]), payload([(6, m), (0x33, 3)]), payload([(WT, 2)]),
+              payload([(8, 1), (8, 1)])]
+        return C
+
+    def _cfg_tail(self, role, rng):
+        """a random local configuration for a `set apply*` line (mostly one `build` accepts)"""
+        if rng.random() < 0.35:
+            return ""
+        val = lambda: rng.choice([0, 1, 63, 64, 16383, 16384, 2**30, self.M62, rng.getrandbits(rng.choice([6, 14, 30, 62]))])
+        t = []
+        if rng.random() < 0.7:
+            t.append("mfs=%d" % (val() if rng.random() < 0.97 else 2**62))
+        for k in ("ec", "dg"):
+            if rng.random() < 0.5:
+                t.append("%s=%d" % (k, rng.randrange(2)))
+        if role == "server":
+            if rng.random() < 0.5:
+                t.append("wt=%d" % rng.randrange(2))
+            if rng.random() < 0.4:
+                t.append("wts=%d" % val())
+        if rng.random() < 0.4:
+            t.append("grease=%d" % rng.randrange(2))
+        rng.shuffle(t)
+        return (" " + " ".join(t)) if t else ""
+
+    def _third_round(self, tier, rng, P):
+        big = tier == "thorough"
+        L = []
+        for role in ("server", "client"):
+            # ---- the product: every class of local configuration x every class of received payload (whole / cut)
+            for toks, m, w in self._local_cfgs(role):
+                tail = (" " + " ".join(toks)) if toks else ""
+                C = self._recv_classes(m, w)
+                for p in C:
+                    total = 1 + 1 + len(vi(len(p))) + len(p)
+                    for cut in (0, total // 2):
+                        L.append("set apply %s %s %d%s" % (role, hx(p), cut, tail))
+                for a in C[1:12:2]:
+                    for b in (C[1], C[-6], []):
+                        L.append("set apply2 %s %s %s%s" % (role, hx(a), hx(b), tail))
+                L.append("set apply2 %s %s %s%s" % (role, hx(C[-5]), hx(C[1]), tail))       # 0/1 setting = 2, then a second frame
+                L.append("set apply2 %s %s %s%s" % (role, hx(C[-4]), hx(C[1]), tail))
+                # ---- resolved foreign streams (and waiting ones) in front of the control stream, under this configuration
+                for q in ([f] for f in self.PRE_FULL):
+                    for p in (C[3], C[-5]):
+                        L.append("set applyq %s %s 0 %s%s" % (role, hx(p), ",".join(q), tail))
+                for q in (["21", "-", "02"], ["405400", "03", "40"], ["02", "03", "405408", "21"], ["54", "21", "4054", "3f"]):
+                    for p in C[1:8:3]:
+                        total = 1 + 1 + len(vi(len(p))) + len(p)
+                        for cut in (0, total // 2):
+                            L.append("set applyq %s %s %d %s%s" % (role, hx(p), cut, ",".join(q), tail))
+            # ---- every pair / triple of complete and incomplete headers, default configuration and WebTransport on
+            pool = self.PRE_FULL[:6] + ["-", "40", "54"]
+            for q in itertools.product(pool, repeat=2):
+                for tail in (("", " wt=1 wts=3") if role == "server" else ("",)):
+                    L.append("set applyq %s 0605 %d %s%s" % (role, rng.choice([0, 2, 3]), ",".join(q), tail))
+            for _ in range(8000 if big else 900):
+                p = rng.choice(P) if rng.random() < 0.6 else rng.choice(self._recv_classes(rng.choice([0, 1, 64, self.M62]), 0))
+                total = 1 + 1 + len(vi(len(p))) + len(p)
+                q = [rng.choice(self.PRE_FULL + self.PRE_BASIC + self.PRE_MORE[:4]) for _ in range(rng.randrange(1, 6))]
+                L.append("set applyq %s %s %d %s%s" % (role, hx(p), rng.randrange(0, total + 1), ",".join(q),
+                                                         self._cfg_tail(role, rng)))
+            # ---- random payloads under random local configurations
+            for _ in range(20000 if big else 2500):
+                p = rng.choice(P)
+                total = 1 + 1 + len(vi(len(p))) + len(p)
+                L.append("set apply %s %s %d%s" % (role, hx(p), rng.randrange(0, total + 1), self._cfg_tail(role, rng)))
+            for _ in range(3000 if big else 300):
+                L.append("set apply2 %s %s %s%s" % (role, hx(rng.choice(P)), hx(rng.choice(P)), self._cfg_tail(role, rng)))
+            # outside the family / refused by build
+            L.append("set applyq %s 0601 0 00" % role)            # a second control stream is C04's
+            L.append("set applyq %s 0601 0 0100" % role)          # a push stream is C04's
+            L.append("set applyq %s 0601 0 2100" % role)          # bytes behind a complete header
+            L.append("set applyq %s 0601 0 -,5400" % role)
+            L.append("set applyq %s 0601 0 21" % role)
+            L.append("set applyq %s 0601 0 02,02" % role)         # a second QPACK encoder stream ends the pass
+            L.append("set applyq %s 0601 0 03,21,03" % role)
+            L.append("set apply %s 0601 0 mfs=%d" % (role, 2**62))   # build refuses: setup-failed
+            L.append("set apply %s 0601 0 seed=1" % role)            # bad-op
+        L.append("set apply client 0601 0 wt=1")                     # the client builder has no WebTransport options
+        return L
+
     def _second_round(self, tier, rng, P):
         big = tier == "thorough"
         L = []
@@ -392,9 +520,6 @@ class C13(Prop):
                 total = 1 + 1 + len(vi(len(p))) + len(p)
                 q = [rng.choice(self.PRE_BASIC + self.PRE_MORE) for _ in range(rng.randrange(1, 8))]
                 L.append("set applyq %s %s %d %s" % (role, hx(p), rng.randrange(0, total + 1), ",".join(q)))
-            L.append("set applyq %s 0601 0 00" % role)           # a complete header is outside this family: bad-op
-            L.append("set applyq %s 0601 0 -,5400" % role)
-            L.append("set applyq %s 0601 0 21" % role)
         # ---- (2) long payloads: function level, through a real connection (whole / cut / behind waiting streams)
         LP = self._long_payloads(tier, rng)
         for p in LP:
@@ -475,6 +600,7 @@ class C13(Prop):
                 for b in applyp[:12]:
                     L.append("set apply2 %s %s %s" % (role, hx(a), hx(b)))
         L += self._second_round(tier, rng, P)
+        L += self._third_round(tier, rng, P)
         return L
 
     # ------------------------------------------------------------------ reporting
@@ -493,8 +619,10 @@ class C13(Prop):
             n = n if n in ("0", "1", "2") else "3+"
             return "cfgw/%s/%s/%s/pieces=%s" % (w[2] if len(w) > 2 else "?", g, r, n)
         if op == "applyq":
-            k = len(w[5].split(",")) if len(w) > 5 else 0
-            return "applyq/%s/ahead=%d/%s" % (w[2], k, " ".join(it[-2:]) if "closed" in it[-2:] else "open")
+            pre = w[5].split(",") if len(w) > 5 else []
+            full = sum(1 for q in pre if q in self.PRE_FULL)
+            return "applyq/%s/ahead=%d/resolved=%d/%s/%s" % (w[2], len(pre), min(full, 3), "cfg" if len(w) > 6 else "dflt",
+                                                           " ".join(it[-2:]) if "closed" in it[-2:] else "open")
         if op == "dec":
             size = len(w[2]) // 2 if len(w) > 2 and w[2] != "-" else 0
             sz = "" if size <= 64 else "/65-128" if size <= 128 else "/129+"
@@ -506,7 +634,8 @@ class C13(Prop):
             rt = it[it.index("rt") + 1] if "rt" in it[:-1] else "-"
             return "enc/%s/%s" % ("panic" if hdr == "panic" else "hdr", rt.split(":")[0])
         if op in ("apply", "apply2"):
-            return "%s/%s/%s" % (op, w[2] if len(w) > 2 else "?", " ".join(it[-2:]) if "closed" in it[-2:] else "open")
+            return "%s/%s/%s/%s" % (op, w[2] if len(w) > 2 else "?", "cfg" if len(w) > 5 else "dflt",
+                                    " ".join(it[-2:]) if "closed" in it[-2:] else "open")
         return op + "/" + r
 
     def trivial(self, line, impl):
@@ -559,39 +688,49 @@ class C13(Prop):
                     out.append(" ".join(w[:4] + toks[:i] + ["%s=0" % k] + toks[i + 1:]))
                 elif v == "1":
                     out.append(" ".join(w[:4] + toks[:i] + [k + "=0"] + toks[i + 1:]))
-        elif w[1] == "applyq" and len(w) == 6:
+        elif w[1] == "applyq" and len(w) >= 6:
             pre = w[5].split(",")
+            tail = w[6:]
+            for i in range(len(tail)):      # the local configuration, key by key (absent = builder default)
+                out.append(" ".join(w[:6] + tail[:i] + tail[i + 1:]))
             for i in range(len(pre)):
                 if len(pre) > 1:
-                    out.append(" ".join(w[:5] + [",".join(pre[:i] + pre[i + 1:])]))
+                    out.append(" ".join(w[:5] + [",".join(pre[:i] + pre[i + 1:])] + tail))
             for i, q in enumerate(pre):
                 if q != "-":
-                    out.append(" ".join(w[:5] + [",".join(pre[:i] + ["-"] + pre[i + 1:])]))
+                    out.append(" ".join(w[:5] + [",".join(pre[:i] + ["-"] + pre[i + 1:])] + tail))
             if w[4] != "0":
-                out.append(" ".join(w[:4] + ["0", w[5]]))
+                out.append(" ".join(w[:4] + ["0", w[5]] + tail))
             if w[3] != "-":
                 h = w[3]
                 for k in (64, 16, 4, 2):
                     if len(h) > k:
-                        out.append(" ".join(w[:3] + [h[k:], w[4], w[5]]))
-                        out.append(" ".join(w[:3] + [h[:-k], w[4], w[5]]))
+                        out.append(" ".join(w[:3] + [h[k:], w[4], w[5]] + tail))
+                        out.append(" ".join(w[:3] + [h[:-k], w[4], w[5]] + tail))
         elif w[1] == "enc" and w[2] != "-":
             ps = w[2].split(",")
             for i in range(len(ps)):
                 rest = ps[:i] + ps[i + 1:]
                 out.append("set enc " + (",".join(rest) if rest else "-"))
-        elif w[1] == "apply" and len(w) == 5:
+        elif w[1] == "apply" and len(w) >= 5:
+            tail = w[5:]
+            for i in range(len(tail)):
+                out.append(" ".join(w[:5] + tail[:i] + tail[i + 1:]))
             if w[4] != "0":
-                out.append(" ".join(w[:4] + ["0"]))
+                out.append(" ".join(w[:4] + ["0"] + tail))
             if w[3] != "-":
-                out.append(" ".join(w[:3] + [w[3][:-2] or "-", w[4]]))
-                out.append(" ".join(w[:3] + [w[3][2:] or "-", w[4]]))
+                out.append(" ".join(w[:3] + [w[3][:-2] or "-", w[4]] + tail))
+                out.append(" ".join(w[:3] + [w[3][2:] or "-", w[4]] + tail))
                 for k in (16, 64, 256):
                     if len(w[3]) > k:
-                        out.append(" ".join(w[:3] + [w[3][k:], w[4]]))
-                        out.append(" ".join(w[:3] + [w[3][:-k], w[4]]))
+                        out.append(" ".join(w[:3] + [w[3][k:], w[4]] + tail))
+                        out.append(" ".join(w[:3] + [w[3][:-k], w[4]] + tail))
         elif w[1] in ("apply2", "cell") and len(w) >= 4:
-            for j in (len(w) - 2, len(w) - 1):
+            core = 5 if w[1] == "apply2" else 4
+            tail = w[core:]
+            for i in range(len(tail)):
+                out.append(" ".join(w[:core] + tail[:i] + tail[i + 1:]))
+            for j in (core - 2, core - 1):
                 if w[j] != "-":
                     out.append(" ".join(w[:j] + [w[j][:-2] or "-"] + w[j + 1:]))
         return out
